@@ -76,7 +76,9 @@ func (fr *Frame) exec(in ssa.Instruction, st *State, g string) {
 			} else if sc := x.Common().StaticCallee(); sc != nil {
 				ck = funcKey(sc)
 			}
+			fr.lastCallRes = res // `hint after` clauses may name the callee's results: callresult, callresult0, callresult1 ...
 			fr.applyHints("after", ck, x.Block(), st, g, nil)
+			fr.lastCallRes = nil
 		}
 		if x.Type() != nil {
 			if tup, ok := x.Type().(*types.Tuple); ok {
@@ -490,8 +492,16 @@ func (fr *Frame) unop(x *ssa.UnOp, st *State, g string) {
 		fr.setVal(x, tc.sortOf(x.Type()), ld)
 		fc.assume(g, tc.wf(fr.vals[x].t, x.Type(), fc.watermark(st)))
 		if strings.HasPrefix(ld, "(select H0_") {
-			// read straight from a component of the ENTRY heap: whatever it holds was allocated before entry
-			fc.assume(g, tc.wf(fr.vals[x].t, x.Type(), compInit("W")))
+			// read straight from a component of the ENTRY heap: whatever an OLD cell holds was allocated before entry.
+			// (Only for cells that existed at entry: the fields of an object returned `fresh` by an assumed contract with
+			// `modifies nothing` are also read from the entry component, and they may well point to other fresh objects --
+			// assuming them old contradicted `fresh(result.Field)` and made everything after such a call vacuous.)
+			// The guard is needed only when the address is derived from a call result (ext_kviter.go: addrFromCall).
+			gg := g
+			if addrFromCall(x.X, 0) {
+				gg = and(g, app("<", app("root", v.t), compInit("W")))
+			}
+			fc.assume(gg, tc.wf(fr.vals[x].t, x.Type(), compInit("W")))
 		}
 	case token.NOT:
 		fr.setVal(x, "Bool", not(v.t))
@@ -555,6 +565,7 @@ func (fr *Frame) convert(x *ssa.Convert, st *State, g string) {
 		fc.emit(fmt.Sprintf("(assert (forall ((i Int)) (! (=> (and (<= 0 i) (< i %s)) (= (select %s i) (strat %s i))) :pattern ((select %s i)))))", n, blk, v.t, blk))
 		fc.strToBytesFact(blk, n, v.t) // ext_bytesalgebra.go
 		fr.setVal(x, "Slice", mkSlice(pt, "0", n, n))
+		fr.kvStringBytes(g, blk, n, v.t) // ext_kviter.go: kvkey([]byte(s)) == strkey(s)
 	case tok && tb.Info()&types.IsString != 0:
 		if _, isSl := from.(*types.Slice); isSl {
 			k, s := fc.bKey(types.Typ[types.Uint8])
@@ -684,6 +695,7 @@ func (fr *Frame) slice(x *ssa.Slice, st *State, g string) {
 			fr.safe("slice", g, and(app("<=", "0", lo), app("<=", lo, hi), app("<=", hi, cp)), x.Pos(), "slice bounds out of range")
 		}
 		fr.setVal(x, "Slice", mkSlice(sarr(v.t), plus(soff(v.t), lo), minus(hi, lo), minus(lim, lo)))
+		fr.kvSubSliceFact(st, g, v, u.Elem(), lo, hi) // ext_kviter.go: id of a sub-window == kvsub(id of the window, lo, hi)
 	case *types.Pointer:
 		arr := u.Elem().Underlying().(*types.Array)
 		n := num(arr.Len())
@@ -817,6 +829,12 @@ func (fr *Frame) applyHints(where, calleeKey string, b *ssa.BasicBlock, st *Stat
 		env := fr.specEnv(st, fr.entry)
 		if res != nil {
 			fr.bindResults(env, res)
+		}
+		for i, r := range fr.lastCallRes {
+			env.vars[fmt.Sprintf("callresult%d", i)] = r
+			if i == 0 {
+				env.vars["callresult"] = r
+			}
 		}
 		t, err := env.evalBool(h.Clause.E)
 		fr.curLocals, fr.curLocalAddrs = nil, nil
@@ -1142,6 +1160,7 @@ func (fr *Frame) localsAt(h *ssa.BasicBlock, pidx int) (map[string]func(*State) 
 			}
 		}
 	}
+	fr.namedHeapVars(h, out, addrs) // ext_kviter.go: captured (heap-allocated) variables without an address debug ref
 	return out, addrs
 }
 
